@@ -13,10 +13,10 @@ BASE_DATE = datetime.datetime(2022, 3, 4, 10, 0, 0)
 BAD = 99999999
 
 
-def make_root(darsia, rng, shape, T, comps, timekind, h, omode, table, cls_name):
+def make_root(darsia, rng, shape, T, comps, timekind, h, omode, table, cls_name, dtype="float64"):
     n = len(shape)
     full = tuple(shape) + ((T,) if T else ()) + ((comps,) if comps else ())
-    arr = np.arange(int(np.prod(full)), dtype=float).reshape(full)
+    arr = np.arange(int(np.prod(full))).astype(dtype).reshape(full)
     dims = [h[m] * shape[m] for m in range(n)]
     kw = dict(space_dim=n, dimensions=list(dims), scalar=(comps == 0))
     if T:
@@ -65,7 +65,7 @@ def project(img, o, h, table):
             "origin": org if org == org2 else [BAD] * n, "dims": dims, "vsize": vs,
             "series": int(bool(img.series)), "scalar": int(bool(img.scalar)),
             "time": [tnum(t) for t in time], "date": [dnum(d) for d in date],
-            "timelist": int(isinstance(img.time, list))}
+            "timelist": int(isinstance(img.time, list)), "dtype": str(img.img.dtype)}
 
 
 def apply_op(darsia, rng, img, op, h, o, table):
@@ -111,8 +111,13 @@ def apply_op(darsia, rng, img, op, h, o, table):
 
 
 def run_program(darsia, rng, tid, prog, shape, T, comps, timekind, h, omode, table, cls_name):
-    root, o = make_root(darsia, rng, shape, T, comps, timekind, h, omode, table, cls_name)
-    ev = [{"tid": tid, "op": "root", "shape": list(shape), "T": T, "comps": comps, "timekind": timekind, "child": project(root, o, h, table)}]
+    # pixel type of the payload: the 8-bit tags stay below 256 for the roots in use (asserted), bool is not a tag carrier
+    dtype = rng.choice(["float64", "float64", "float32", "int64", "uint16", "uint8"])
+    root, o = make_root(darsia, rng, shape, T, comps, timekind, h, omode, table, cls_name, dtype)
+    if dtype == "uint8" and root.img.size > 255:
+        dtype = "uint16"
+        root, o = make_root(darsia, rng, shape, T, comps, timekind, h, omode, table, cls_name, dtype)
+    ev = [{"tid": tid, "op": "root", "shape": list(shape), "T": T, "comps": comps, "timekind": timekind, "dtype": dtype, "child": project(root, o, h, table)}]
     rootcopy = root.img.copy()
     cur = root
     for op in prog:
@@ -132,6 +137,42 @@ def run_program(darsia, rng, tid, prog, shape, T, comps, timekind, h, omode, tab
     if not np.array_equal(rootcopy, root.img):
         ev[0]["child"]["tags"] = [-1]
     return ev
+
+
+def diffroi_event(darsia, rng, tid, shape, h, omode, table, comps, T):
+    """A physical box (arbitrary float corner points: inside voxels, exactly on voxel faces, outside the image) selects the
+    same sub-image as the voxel box obtained by converting its corners to voxel indices."""
+    root, o = make_root(darsia, rng, shape, T, comps, "times" if T else "none", h, omode, table, "Image")
+    cs = root.coordinatesystem
+    n = len(shape)
+    pts = []
+    for _ in range(2):
+        v = [rng.uniform(-1.0, shape[a] + 1.0) if rng.random() < 0.6 else float(rng.randint(0, shape[a])) for a in range(n)]
+        # physical point at fractional voxel position v (linear along every matrix axis)
+        x0 = np.asarray(cs.coordinate([0] * n), dtype=float)
+        x = x0.copy()
+        for a in range(n):
+            ea = [0] * n
+            ea[a] = 1
+            x = x + v[a] * (np.asarray(cs.coordinate(ea), dtype=float) - x0)
+        pts.append(x.tolist())
+    e = {"tid": tid, "op": "diffroi", "n": n, "raised_phys": 0, "raised_vox": 0, "same_data": 0, "same_place": 0, "same_meta": 0}
+    a = b = None
+    try:
+        a = root.subregion(darsia.make_coordinate(pts))
+    except Exception as ex:  # noqa
+        e["raised_phys"] = 1
+        e["error"] = repr(ex)[:120]
+    try:
+        b = root.subregion(darsia.make_voxel(np.asarray(cs.voxel(np.array(pts)))))
+    except Exception as ex:  # noqa
+        e["raised_vox"] = 1
+    if a is not None and b is not None:
+        e["same_data"] = int(a.img.shape == b.img.shape and a.img.dtype == b.img.dtype and np.array_equal(a.img, b.img))
+        e["same_place"] = int(np.allclose(np.asarray(a.origin), np.asarray(b.origin), rtol=0, atol=1e-12 * max(1.0, float(np.abs(o).max())))
+                              and np.allclose(a.dimensions, b.dimensions, rtol=1e-12, atol=0))
+        e["same_meta"] = int(a.series == b.series and a.scalar == b.scalar and (a.time == b.time))
+    return e
 
 
 def stack_event(darsia, rng, tid, n, k, timekind, shape, use_append):
@@ -205,10 +246,10 @@ def run(ck, replay=None):
             else:
                 sel = short if not quick else rng.sample(short, min(len(short), 120))
             for p in sel:
-                comps = rng.choice([0, 0, 2])
+                comps = rng.choice([0, 0, 2, 3])
                 timekind = rng.choice(["times", "dates", "none"])
                 h = [rng.choice([1.0, 0.5, 0.1, 0.3 / 7, 1e-4, 1e4 / 3]) for _ in shapes[cfg]]
-                cls_name = "Image" if comps else rng.choice(["Image", "ScalarImage"])
+                cls_name = rng.choice(["Image", "ScalarImage"]) if not comps else ("OpticalImage" if comps == 3 and len(shapes[cfg]) == 2 and rng.random() < 0.7 else "Image")
                 cases.append((cfg, p, comps, timekind, h, rng.choice(["default", "user", "far"]), cls_name))
     events, info = [], {}
     for i, c in enumerate(cases):
@@ -229,6 +270,12 @@ def run(ck, replay=None):
             events += run_program(darsia, rng, tid, p, shapes[cfg], 0, c[2], "none", c[4], c[5], tables[len(shapes[cfg])], "Image")
         except Exception:
             raise
+    # physical boxes versus the voxel boxes of their converted corners
+    for i in range(40 if quick else 600):
+        cfg = rng.choice(["2d", "3d", "sim2d", "sim3d"])
+        hh = [rng.choice([1.0, 0.5, 0.1, 0.3 / 7, 1e4 / 3]) for _ in shapes[cfg]]
+        events.append(diffroi_event(darsia, rng, f"diffroi:{i}", shapes[cfg], hh, rng.choice(["default", "user", "far"]), tables[len(shapes[cfg])],
+                                    rng.choice([0, 0, 2]), rng.choice([0, Ts[cfg]])))
     # stacking / appending
     nstack = 0
     for k in range(2, 6):
@@ -268,6 +315,9 @@ def run(ck, replay=None):
         if e["op"] == "stack":
             sig = f"C02:{b['clause']}:{e['via']}:{e['timekind']}"
             detail = {"k": e["k"], "timekind": e["timekind"], "via": e["via"], "error": e.get("error")}
+        elif e["op"] == "diffroi":
+            sig = f"C02:{b['clause']}:diffroi:{e['n']}d"
+            detail = {k: v for k, v in e.items() if k != "tid"}
         else:
             form = e.get("form", "")
             sig = f"C02:{b['clause']}:{e['op']}" + (":" + form if form else "")
